@@ -75,7 +75,9 @@ impl Shell {
     pub fn run(&self, command: &str, work_dir: &AbsPath, file: &str) -> Result<String, ShellError> {
         log::debug!("shell command `{command}`");
         let result = Command::new(&self.exe)
-            .current_dir(work_dir.to_string())
+            // the absolute path: the display string is relative to the base directory,
+            // which is not necessarily the working directory of this process
+            .current_dir(work_dir.as_path())
             .args(&self.args)
             .arg(command)
             .env(TXTPP_FILE, file)
